@@ -110,8 +110,12 @@ func (e *storeEnv) ctx(n string) context.Context {
 }
 
 func (e *storeEnv) do(n string, h http.Handler, method, target string, body []byte) (int, []byte) {
+	return e.doCtx(e.ctx(n), h, method, target, body)
+}
+
+func (e *storeEnv) doCtx(ctx context.Context, h http.Handler, method, target string, body []byte) (int, []byte) {
 	rec := httptest.NewRecorder()
-	req := httptest.NewRequest(method, target, bytes.NewReader(body)).WithContext(e.ctx(n))
+	req := httptest.NewRequest(method, target, bytes.NewReader(body)).WithContext(ctx)
 	if body != nil {
 		req.Header.Set("Content-Type", "application/json")
 	}
@@ -582,9 +586,39 @@ func (e *storeEnv) readProbes(n string, k int) (int, []string) {
 	body, _ := json.Marshal(map[string]any{"namespace": "n1", "object": fresh, "relation": "r", "subject_id": "p-" + fresh})
 	batch, _ := json.Marshal(map[string]any{"tuples": []any{map[string]any{"namespace": "n1", "object": fresh, "relation": "r", "subject_id": "b-" + fresh},
 		map[string]any{"namespace": "nope", "object": fresh, "relation": "r", "subject_set": map[string]any{"namespace": "n2", "object": "bo-" + fresh, "relation": ""}}}})
+	// batches of valid relationships only, with never-seen names, on both sides of the batch parallelisation limit (5) up to the size limit (10)
+	validBatch := func(sz int, tag string) ([]byte, []*rts.RelationTuple) {
+		var js []any
+		var ps []*rts.RelationTuple
+		for i := 0; i < sz; i++ {
+			o, sub := fmt.Sprintf("%s-o%d-%s", tag, i, fresh), fmt.Sprintf("%s-s%d-%s", tag, i, fresh)
+			if i%2 == 0 {
+				js = append(js, map[string]any{"namespace": "n1", "object": o, "relation": "r", "subject_id": sub})
+				ps = append(ps, &rts.RelationTuple{Namespace: "n1", Object: o, Relation: "r", Subject: rts.NewSubjectID(sub)})
+			} else {
+				js = append(js, map[string]any{"namespace": "n2", "object": o, "relation": "r", "subject_set": map[string]any{"namespace": "n1", "object": sub, "relation": "m"}})
+				ps = append(ps, &rts.RelationTuple{Namespace: "n2", Object: o, Relation: "r", Subject: rts.NewSubjectSet("n1", sub, "m")})
+			}
+		}
+		b, _ := json.Marshal(map[string]any{"tuples": js})
+		return b, ps
+	}
 	type probe struct {
 		name string
 		f    func()
+	}
+	var sizedBatches []probe
+	for _, sz := range []int{5, 6, 10} {
+		sz := sz
+		sizedBatches = append(sizedBatches,
+			probe{fmt.Sprintf("POST batch check of %d valid unseen", sz), func() {
+				b, _ := validBatch(sz, "rb")
+				e.do(n, e.rr, "POST", "/relation-tuples/batch/check", b)
+			}},
+			probe{fmt.Sprintf("gRPC batch check of %d valid unseen", sz), func() {
+				_, ps := validBatch(sz, "gb")
+				e.ch.BatchCheck(e.ctx(n), &rts.BatchCheckRequest{Tuples: ps})
+			}})
 	}
 	probes := []probe{
 		{"GET list unseen", func() { e.do(n, e.rr, "GET", "/relation-tuples?"+q.Encode(), nil) }},
@@ -619,6 +653,7 @@ func (e *storeEnv) readProbes(n string, k int) (int, []string) {
 			e.eh.Expand(e.ctx(n), &rts.ExpandRequest{Subject: rts.NewSubjectSet("n1", "ge-"+fresh, "r"), MaxDepth: 3})
 		}},
 	}
+	probes = append(probes, sizedBatches...)
 	var bad []string
 	before := e.dumpHash()
 	for _, p := range probes {
